@@ -150,7 +150,15 @@ def _structural(prog, rep):
     if coll:
         stores = [s for s in iter_stmts(coll[0].body) if isinstance(s, ast.Assign) and U(s.targets[0]).startswith(f"{dname}[")]
         if stores:
-            g = [(U(t), p) for t, p in guards_of(stores[0], coll[0])]
+            g = set()
+            for t_, p_ in guards_of(stores[0], coll[0]):
+                while isinstance(t_, ast.UnaryOp) and isinstance(t_.op, ast.Not):
+                    t_, p_ = t_.operand, not p_
+                if isinstance(t_, ast.Compare) and len(t_.ops) == 1 and isinstance(t_.ops[0], (ast.Is, ast.IsNot, ast.Eq, ast.NotEq)) \
+                        and U(t_.comparators[0]) == "None" and isinstance(t_.ops[0], (ast.Is, ast.Eq)):
+                    t_, p_ = ast.Compare(left=t_.left, ops=[ast.IsNot()], comparators=t_.comparators), not p_
+                g.add((U(t_), p_))
+            g = sorted(g)
             ok_coll = any("isinstance(residue, aa.CYS)" in t and p for t, p in g) and any("is not None" in t and p for t, p in g) \
                 and len(g) == 2 and U(stores[0].value) == "[]"
             gd = g
